@@ -140,3 +140,15 @@ prop("C10", "Filters pass exactly the configured set of commands, keys, slots an
        "quick": {"checks": 480, "shards": 8, "timeout": 600},
        "thorough": {"checks": 16000, "shards": 16, "timeout": 3600}}],
      STREAM_ASSUME + ["ref/keyspec (key positions transcribed from the Redis command reference)", "ref/filtermodel", "ref/hashslot", "ref/rdbgen for the snapshot layer"])
+
+CACHE_ASSUME = BASE_ASSUME + ["cache/ driver: bytes are a pure function of (lineage, offset) (ByteAt/SnapBytes, snapshots end with their CRC64), fed through io.Pipe like a source connection; readers are drained by background pumps",
+                              "writers/readers are used the way RedisInput.syncMeta/syncData and the replica code use them (DelRunId + SetRunId + writer at the channel's right edge)"]
+
+prop("C05", "The local cache returns exactly the bytes written, at the offsets written", "exploration",
+     "a case = backend (disk StoreChannel in a scratch directory | MemoryChannel) x segment size 32..4096 x max size (unlimited | 3 | 8 segments) x verifyCrc x a sequence of 3-30 operations: snapshot write + log writer, log-only start, append of 1..3 segments worth of bytes (incl. exactly segment size +-1), open reader anywhere in [left-6, right+5] or near the tail, close reader, collector pass (hook), writer replacement, replication-id switch (rename), delete, new snapshot, clean close+reopen (disk). "
+     "After EVERY step every byte every reader has returned so far is compared with the byte function, live readers must have delivered exactly the bytes written so far (bounded wait 10 s => inconclusive), invalidated readers may end but must not deliver other bytes; IsValidOffset => NewReader succeeds; a log reader is never handed out outside the cached range; a snapshot reader only while a complete snapshot is cached and with its geometry; GetOffsetRange never claims bytes that were collected; delete invalidates. "
+     "non-trivial (measured) = distinct case in which a live reader consumed more than one segment (crossed a rotation) AND a collector pass removed a segment.",
+     [{"pkg": "c05", "test": "TestC05",
+       "quick": {"checks": 1600, "shards": 8, "timeout": 600},
+       "thorough": {"checks": 64000, "shards": 16, "timeout": 5400}}],
+     CACHE_ASSUME, max_inconclusive=0)
